@@ -22,6 +22,12 @@ type c15Input struct {
 	Sizes []int  `json:"sizes"` // payload sizes written one after the other
 	API   string `json:"api"`   // "writeto" (ReadFrom on the peer) | "write" (Read on the peer)
 	Dir   string `json:"dir"`   // "c2s" | "s2c"
+	// Clone: both configurations are used through Config.Clone; Lose: the client's first transmission of its
+	// key-exchange flight is lost, so the server's timer fires first and it sends its flight again;
+	// ReadBuf: (api write) the peer reads with buffers of this size, smaller than a record
+	Clone   bool `json:"clone,omitempty"`
+	Lose    bool `json:"lose,omitempty"`
+	ReadBuf int  `json:"read_buf,omitempty"`
 }
 
 func c15Mode(suite uint16) string {
@@ -46,7 +52,26 @@ func c15AddCase(out *emit.Out, scenario string, in c15Input) {
 	if in.Suite == 0xe051 || in.Suite == 0xe011 {
 		sc.Auth = 4
 	}
+	cc.Clone, sc.Clone = in.Clone, in.Clone
+	if in.Lose {
+		cc.RetransMs, cc.MaxRetransMs, sc.RetransMs, sc.MaxRetransMs = 400, 1600, 50, 400
+	}
 	dp := tk.NewDPair(tk.BuildDTLCP(cc, reg), tk.BuildDTLCP(sc, reg))
+	if in.Lose {
+		// drop what the client sends after its hellos until the server has sent something again
+		dropping, dropped := true, 0
+		dp.Net.Mangle = func(d *tk.Dgram) [][]byte {
+			hello := len(d.Data) > 13 && d.Data[0] == 22 && d.Data[3] == 0 && d.Data[4] == 0 && d.Data[13] == 1
+			if d.From == 0 && !hello && dropping {
+				dropped++
+				return nil
+			}
+			if d.From == 1 && dropped > 0 {
+				dropping = false
+			}
+			return [][]byte{d.Data}
+		}
+	}
 	sender, senderEnd := 0, dp.Net.End(0)
 	if in.Dir == "s2c" {
 		sender, senderEnd = 1, dp.Net.End(1)
@@ -91,6 +116,9 @@ func c15AddCase(out *emit.Out, scenario string, in c15Input) {
 			}
 			hsSizes[id] = append([]int(nil), e.Sizes...)
 			buf := make([]byte, 70000)
+			if in.ReadBuf > 0 && in.API == "write" {
+				buf = buf[:in.ReadBuf]
+			}
 			misses := 0
 			for misses < 2 {
 				c.SetReadDeadline(time.Now().Add(50 * time.Millisecond))
@@ -125,6 +153,20 @@ func c15AddCase(out *emit.Out, scenario string, in c15Input) {
 	if !(hsOK[0] && hsOK[1]) {
 		return
 	}
+	if in.ReadBuf > 0 && in.API == "write" {
+		// short reads: only the byte stream is judged (complete and in order)
+		var all, got []byte
+		for _, p := range payloads {
+			all = append(all, p...)
+		}
+		for _, q := range recvd {
+			got = append(got, q...)
+		}
+		out.Add(emit.Case{Scenario: scenario + "-short-reads", Trivial: false, Input: in,
+			Observed: map[string]interface{}{"written": len(all), "read": len(got), "intact": bytes.Equal(all, got), "reads": len(recvd)},
+			Coq:      fmt.Sprintf("ShortReadCase (%d) %d %d %s", in.PMTU, in.ReadBuf, len(all), emit.Bool(bytes.Equal(all, got)))})
+		return
+	}
 	// map received pieces back to writes: pieces arrive in order
 	pos := 0
 	for i, p := range payloads {
@@ -152,7 +194,7 @@ func c15AddCase(out *emit.Out, scenario string, in c15Input) {
 		if len(p) == 0 {
 			sc += "-empty"
 		}
-		out.Add(emit.Case{Scenario: sc, Trivial: false, Input: c15Input{in.PMTU, in.Suite, []int{len(p)}, in.API, in.Dir},
+		out.Add(emit.Case{Scenario: sc, Trivial: false, Input: c15Input{PMTU: in.PMTU, Suite: in.Suite, Sizes: []int{len(p)}, API: in.API, Dir: in.Dir, Clone: in.Clone, Lose: in.Lose},
 			Observed: map[string]interface{}{"datagrams": perWrite[i], "received": lens, "intact": intact, "returned": wrote[i], "err": werrs[i]},
 			Coq:      fmt.Sprintf("%s (%d) %s %d %s %s %s %d", ctor, in.PMTU, mode, len(p), zl(perWrite[i]), zl(lens), emit.Bool(intact), wrote[i])})
 	}
@@ -201,7 +243,7 @@ func runC15(p params) error {
 			return err
 		}
 		for _, c := range rp.Cases {
-			sc := strings.TrimSuffix(strings.TrimSuffix(strings.TrimSuffix(c.Scenario, "-handshake"), "-empty"), "-extra")
+			sc := strings.TrimSuffix(strings.TrimSuffix(strings.TrimSuffix(strings.TrimSuffix(c.Scenario, "-handshake"), "-empty"), "-extra"), "-short-reads")
 			c15AddCase(out, sc, c.Input)
 		}
 		return out.Finish()
@@ -246,6 +288,20 @@ func runC15(p params) error {
 					c15AddCase(out, other, c15Input{PMTU: pm, Suite: su, Sizes: []int{16383, 16384, 16385, 40000, 1}, API: other, Dir: dir})
 				}
 			}
+		}
+	}
+	// configurations used through Clone; the server's flight sent a second time (its timer fires while the client's
+	// flight is lost); records read with buffers smaller than a record
+	for i, pm := range []int{300, 577, 1000, 1400, 3000} {
+		su := suites[i%4]
+		mx := c15Max(pm, su)
+		c15AddCase(out, "cloned-config", c15Input{PMTU: pm, Suite: su, Sizes: []int{mx, 1, 2*mx + 1}, API: []string{"writeto", "write"}[i%2], Dir: []string{"c2s", "s2c"}[i%2], Clone: true})
+		if pm <= 1000 {
+			c15AddCase(out, "server-flight-again", c15Input{PMTU: pm, Suite: su, Sizes: []int{5}, API: "write", Dir: "s2c", Lose: true})
+			c15AddCase(out, "server-flight-again", c15Input{PMTU: pm, Suite: suites[(i+2)%4], Sizes: []int{5}, API: "writeto", Dir: "c2s", Lose: true, Clone: true})
+		}
+		for _, rb := range []int{1, 100, 500} {
+			c15AddCase(out, "write", c15Input{PMTU: pm, Suite: su, Sizes: []int{mx, 3*mx + 7, 1, 0, 200}, API: "write", Dir: []string{"c2s", "s2c"}[(i+rb)%2], ReadBuf: rb})
 		}
 	}
 	return out.Finish()
